@@ -223,6 +223,29 @@ impl Prop for HybProp {
             for w in h.writes.iter() {
                 println!("  write k{} v{} {:?} t{}..{:?}", w.key, w.ver, w.kind, w.invoke, w.resp);
             }
+            if std::env::var_os("VERIF_DUMP_IO").is_some() {
+                for r in out.world.io.log().iter() {
+                    let what = match (&r.kind, r.data.as_ref()) {
+                        (crate::simio::IoKind::Write, Some(d)) => {
+                            if crate::dformat::looks_like_index(d) {
+                                format!("index {:?}", crate::dformat::parse_index(d).unwrap().iter().map(|s| (s.hash, s.sequence, s.offset)).collect::<Vec<_>>())
+                            } else if d.iter().all(|b| *b == 0) {
+                                "zeros".to_string()
+                            } else {
+                                format!(
+                                    "entries {:?}",
+                                    crate::dformat::entries_in(d)
+                                        .iter()
+                                        .map(|e| (e.header.hash, e.header.sequence, e.value.as_ref().map(|v| decode_val(v))))
+                                        .collect::<Vec<_>>()
+                                )
+                            }
+                        }
+                        _ => String::new(),
+                    };
+                    println!("  io{} {:?} p{} @{}+{} t{}..{:?} {:?} {}", r.id, r.kind, r.part, r.offset, r.len, r.submitted_at, r.completed_at, r.outcome, what);
+                }
+            }
         }
         let mut complaints = liveness(&out);
         complaints.extend((self.judge)(&job, &out));
